@@ -430,6 +430,9 @@ class DiagTranslation(Translation):
 
 # ---------------------------------------------------------------------------------------
 def translations():
+    import os as _os
+    import srcguard as _srcguard
+    _srcguard.guard_from_baseline("specs_diag", _os.environ.get("PYDREX_REPO", "/repo"))   # fail closed on new block-size-like integers
     import pydrex.diagnostics as dg
     import pydrex.stats as stats
     import pydrex.utils as utils
